@@ -5,6 +5,7 @@ ops (hex operands):
   lines <s>        every get_line result until LT_EOF (format of harness/ph_lines.cpp)
   logical <s>      every get_logical_line result until LT_EOF, by iterating the per-call function `scan`
   sims <s>         "S <n> | <lines in sim 1> <lines in sim 2> …"
+  flines <s> <name> <content> …   get_line results with include directives followed through the given files
   cut <a> <b>      hypotheses and conclusion of the append theorems on a concrete cut:
                    "B closed=<0|1> end=<0|1> lines_eq=<0|1> sims_eq=<0|1> nsims=<n(a)> <n(b)> <n(a++b)>" -/
 namespace Driver.LineReader
@@ -41,6 +42,20 @@ def handle (line : String) : List String :=
   | ["logical", h] =>
     match bytesOf h with
     | some s => let d := decode s; iterScan (d.length + 2) d [] ++ ["R done"]
+    | none => ["bad-hex"]
+  | "flines" :: h :: fsdesc =>
+    -- flines <text> <name1> <content1> <name2> <content2> … : get_line with include directives followed (depth budget 8)
+    let rec pairs : List String → List (Bytes × Bytes)
+      | n :: c :: r => (match bytesOf n, bytesOf c with | some a, some b => [(a, b)] | _, _ => []) ++ pairs r
+      | _ => []
+    let tbl := pairs fsdesc
+    let fs : Bytes → Option Bytes := fun n => (tbl.find? (fun p => p.1 == n)).map (·.2)
+    match bytesOf h with
+    | some s =>
+      (readLinesFS fs 8 s).map (fun i => match i with
+        | .line l => showLine l
+        | .missing f => s!"I {hexOf f}"
+        | .tooDeep f => s!"DEEP {hexOf f}") ++ [s!"EOF {Gen.Keywords.keyEnd}", "R done"]
     | none => ["bad-hex"]
   | ["sims", h] =>
     match bytesOf h with
